@@ -560,7 +560,47 @@ def _unknown_flag_neutral(i):
     return o
 
 
+def _sonly_long_words(i):
+    out = []
+    flags = [f for c in (i.get("tree") or {}).get("cmds") or [] for f in (c.get("flags") or []) if f.get("mode") == 1]
+    for k, w in enumerate((i.get("words") or [])[:-1]):
+        for f in flags:
+            if w == "--" + f["name"] or w.startswith("--" + f["name"] + "=") or (f.get("delim") and w.startswith("--" + f["name"] + f["delim"])):
+                out.append((k, f))
+    return out
+
+
+def _sonly_long_neutral(i):
+    o = copy.deepcopy(i)
+    for k, f in _sonly_long_words(i):
+        o["words"][k] = "-" + f["short"] + o["words"][k][2 + len(f["name"]):]
+    return o
+
+
+def _nargs_any_then_pending(i):
+    ws = i.get("words") or []
+    if len(ws) < 3:
+        return None
+    k = len(ws) - 3
+    for c in (i.get("tree") or {}).get("cmds") or []:
+        for f in c.get("flags") or []:
+            if (f.get("nargs") or 0) < 0 and (ws[k] == "--" + f["name"] or (f.get("short") and ws[k] == "-" + f["short"])) and ws[k + 1].startswith("-") and ws[k + 1] != "--":
+                return k
+    return None
+
+
+def _nargs_any_then_pending_neutral(i):
+    o = copy.deepcopy(i)
+    k = _nargs_any_then_pending(i)
+    o["words"] = o["words"][: k + 1] + ["a"] + o["words"][k + 1:]
+    return o
+
+
 PARSE_CLASSES = [
+    Class("nargs_any_flag_before_pending_flag", ("C01",), ("parse",), lambda i: _nargs_any_then_pending(i) is not None, _nargs_any_then_pending_neutral,
+          "`--files --color <TAB>` with Nargs < 0 on --files: the parser accepts `--files` without a value when a flag follows it, but rejects it at the end of the line; traverse hands the line without the pending `--color` to the parser, gets `flag needs an argument: --files` and shows that message instead of completing the value of --color"),
+    Class("shorthand_only_flag_in_long_form", ("C01", "C07"), ("parse",), lambda i: bool(_sonly_long_words(i)), _sonly_long_neutral,
+          "a ShorthandOnly flag typed in its long form (`--delim v`): the fork's parser drops the word - and the next one as its value - without an error, traverse takes `--delim` for an unknown flag and `v` for a positional, so positional indices and (in a non-interspersed command) the reading of the following words differ"),
     Class("unknown_flag_takes_next_word", ("C01", "C07"), ("parse",), lambda i: bool(_unknown_flag_words(i)), _unknown_flag_neutral,
           "a program that tolerates unknown flags (FParseErrWhitelist.UnknownFlags / CARAPACE_LENIENT): the parser drops the word after an unknown flag as that flag's value, traverse treats it - and the word under the cursor when it comes right after the flag - as a positional: `sub -z <TAB>` offers positional 0, and the accepted candidate disappears"),
     Class("posix_shorthand_custom_delimiter", ("C01",), ("parse",), _short_delim_applies, _short_delim_neutral,
@@ -601,6 +641,7 @@ PARSE_CLASSES.append(
 BY = {c.id: c for c in PARSE_CLASSES}
 BY["complete_protocol_positional_from_dash_slot"].codes = ("carapace_registered:positional_slot",)
 BY["subcommand_after_parent_flags"].codes = ("subcommand_",)
+BY["nargs_any_flag_before_pending_flag"].codes = ("probe_slot_not_served",)
 BY["shorthand_series_after_dash"].codes = ("wrong_slot:dash",)
 
 
